@@ -781,6 +781,9 @@ func (o *operation) processRequestEnvelope(envBuf envelopeBytes) (msgLen int, co
 	if env.trailer {
 		return 0, false, malformedRequestError(errors.New("client stream cannot include status/trailer message"))
 	}
+	if env.compressed && o.client.reqCompression == nil {
+		return 0, false, malformedRequestError(errors.New("message is flagged as compressed but the request declares no compression"))
+	}
 	if limit := o.methodConf.maxMsgBufferBytes; env.length > limit {
 		return 0, false, bufferLimitError(int64(limit))
 	}
@@ -950,6 +953,9 @@ func (r *envelopingReader) prepareNext() error {
 			return err
 		}
 		env, err = r.rw.op.clientEnveloper.decodeEnvelope(envBytes)
+		if err == nil && env.compressed && r.rw.op.client.reqCompression == nil {
+			err = errors.New("message is flagged as compressed but the request declares no compression")
+		}
 		if err != nil {
 			err = malformedRequestError(err)
 			r.rw.reportError(err)
@@ -1492,6 +1498,9 @@ func (w *envelopingWriter) writeBytes(data []byte) (int, error) {
 func (w *envelopingWriter) handleEnvelopeWritten() error {
 	w.writingEnvelope = false
 	env, err := w.rw.op.serverEnveloper.decodeEnvelope(w.env)
+	if err == nil && env.compressed && w.rw.op.server.respCompression == nil {
+		err = errors.New("message is flagged as compressed but the response declares no compression")
+	}
 	if err != nil {
 		err = malformedRequestError(err)
 		w.rw.reportError(err)
@@ -1718,6 +1727,9 @@ func (w *transformingWriter) Write(data []byte) (n int, err error) {
 			_, _ = w.buffer.Read(envBytes[:])
 			var err error
 			w.latestEnvelope, err = w.rw.op.serverEnveloper.decodeEnvelope(envBytes)
+			if err == nil && w.latestEnvelope.compressed && w.rw.op.server.respCompression == nil {
+				err = errors.New("message is flagged as compressed but the response declares no compression")
+			}
 			if err != nil {
 				err = malformedRequestError(err)
 				w.rw.reportError(err)
